@@ -329,6 +329,7 @@ func Walk(e *core.Env, img []byte, mode pdf.ReaderErrorHandling, password string
 	var ms0, ms1 runtime.MemStats
 	runtime.ReadMemStats(&ms0)
 	work0 := core.WorkNow()
+	filt0 := core.WorkIn("internal/filter")
 	var pkg0 map[string]int64
 	if os.Getenv("VSIM_CALIB") != "" {
 		pkg0 = core.WorkByPackage()
@@ -337,9 +338,10 @@ func Walk(e *core.Env, img []byte, mode pdf.ReaderErrorHandling, password string
 		walk(img, mode, password, eofAtEnd, &st)
 	})
 	ticks := core.WorkNow() - work0
+	filterTicks := core.WorkIn("internal/filter") - filt0
 	runtime.ReadMemStats(&ms1)
 	if core.WorkActive() {
-		calib(ticks, int64(len(img)), &st, pkg0)
+		calib(ticks, filterTicks, int64(len(img)), &st, pkg0)
 	}
 	e.Steps(st.gets + st.streams + st.pages)
 	if st.opened {
@@ -573,7 +575,7 @@ var corners = map[string]func(e *core.Env){
 
 var calibMax float64
 
-func calib(ticks, in int64, st *stats, pkg0 map[string]int64) {
+func calib(ticks, filterTicks, in int64, st *stats, pkg0 map[string]int64) {
 	if os.Getenv("VSIM_CALIB") == "" {
 		return
 	}
@@ -595,11 +597,16 @@ func calib(ticks, in int64, st *stats, pkg0 map[string]int64) {
 			top += fmt.Sprintf(" %s=%d", l[i].k, l[i].v)
 		}
 	}
-	r := float64(ticks) / float64(in+st.drained+1)
+	rest := ticks - filterTicks
+	r := float64(rest) / float64(int64(32<<20)*int64(1+st.fonts)+4096*(in+st.drained))
+	if f, err := os.OpenFile(fmt.Sprintf("/tmp/c05all.%d", os.Getpid()), os.O_APPEND|os.O_CREATE|os.O_WRONLY, 0o644); err == nil {
+		fmt.Fprintf(f, "%d %d %d %d %d %d %d %d\n", rest, filterTicks, in, st.drained, st.streams, st.pages, st.fonts, st.budgets)
+		f.Close()
+	}
 	if r > calibMax && ticks > 100000 {
 		calibMax = r
 		f, _ := os.OpenFile(fmt.Sprintf("/tmp/c05calib.%d", os.Getpid()), os.O_APPEND|os.O_CREATE|os.O_WRONLY, 0o644)
-		fmt.Fprintf(f, "ratio=%.1f\tticks=%d\tin=%d\tdrained=%d\tbudgets=%d\tstreams=%d\tgets=%d\tpages=%d\tfonts=%d\ttop:%s\n", r, ticks, in, st.drained, st.budgets, st.streams, st.gets, st.pages, st.fonts, top)
+		fmt.Fprintf(f, "ratio=%.3f\trest=%d\tticks=%d\tin=%d\tdrained=%d\tbudgets=%d\tstreams=%d\tgets=%d\tpages=%d\tfonts=%d\ttop:%s\n", r, rest, ticks, in, st.drained, st.budgets, st.streams, st.gets, st.pages, st.fonts, top)
 		f.Close()
 	}
 }
